@@ -30,5 +30,5 @@ CONSTANTS
   MaxGens = 2
   GenChoices = {101, 22, 13, 122}
   Sample = FALSE
-INVARIANTS Plain Yaml Organism Population FastModel ExperimentFile TokensTyped
+INVARIANTS Plain Yaml Organism Population FastModel ExperimentFile ReadIntoUsed TokensTyped
 CHECK_DEADLOCK FALSE
